@@ -50,7 +50,7 @@ def _cases(draw):
     if g.p("_", 0.14):
         # edge probes: inputs a user can type that XML cannot carry as they are; the outcome must be a well-formed result or a rejection
         qs = [n for n, _ in model.walk(form["nodes"]) if n["k"] == "q" and n["c"].get("type", "").split(" ")[0] in ("text", "integer", "note", "select_one")]
-        kind = g.pick(["char", "header", "setting", "namespaces", "name", "instance-xmlns", "root-name"])
+        kind = g.pick(["char", "header", "setting", "namespaces", "name", "instance-xmlns", "root-name", "same-namespace-twice"])
         if kind == "char" and qs:
             n = g.pick(qs)
             cols = [k for k in n["c"] if k.split("::")[0] in ("label", "hint", "constraint_message", "default")] or ["label"]
@@ -65,6 +65,17 @@ def _cases(draw):
         elif kind == "namespaces":
             form.setdefault("settings", {})["namespaces"] = g.pick(EDGE_NAMESPACES)
             edge = "namespaces-setting"
+        elif kind == "same-namespace-twice" and qs:
+            # two prefixes declared with one namespace name (legal), or an author's prefix for a namespace the converter declares itself;
+            # attributes that differ only in such prefixes are the same attribute
+            uri, p2 = g.pick([("http://x.example/n", "bb"), ("http://www.opendatakit.org/xforms", "odk"), ("http://openrosa.org/javarosa", "jr"), ("http://x.example/n", "bb")])
+            form.setdefault("settings", {})["namespaces"] = f'aa="{uri}"' + (f' bb="{uri}"' if p2 == "bb" else "")
+            n = g.pick(qs)
+            sheet = g.pick(["bind", "body", "instance"]) if n["c"].get("label") else "bind"
+            loc = g.pick(["foo", "foo", "x1"])
+            n["c"][f"{sheet}::aa:{loc}"] = "1"
+            n["c"][f"{sheet}::{p2}:{loc if g.p('_', 0.8) else 'other'}"] = "2"
+            edge = "same-namespace-twice"
         elif kind == "name" and qs:
             n = g.pick(qs)
             if not common.all_strings and False:
